@@ -1,8 +1,7 @@
 import Ivg.Lemmas.GeomQ
-import Ivg.Gen.Tie.DrawOps
 import Ivg.Gen.Tie.GradientFields
-import Ivg.Gen.Tie.Magic
 import Ivg.Gen.Tie.RendererFields
+import Ivg.Gen.Tie.MiscFields
 import Ivg.Obligations
 /-!
 # C05 — drawing operations reach the rasteriser as the right segments, affinely mapped
@@ -177,10 +176,19 @@ end generic
 
 end Ivg.Props.C05
 
-#obligations C05 [
-  Ivg.Props.C05.transform_after_reset, Ivg.Props.C05.T_closed, Ivg.Props.C05.T_after_reset, Ivg.Props.C05.T_corners,
-  Ivg.Props.C05.unabs_abs, Ivg.Props.C05.step_refines, Ivg.Props.C05.run_refines,
-  Ivg.Props.C05.startPath_cases, Ivg.Props.C05.geometry_refines, Ivg.Props.C05.step_kinds,
-  Ivg.Props.C05.step_disabled, Ivg.Props.C05.closeMove_generic, Ivg.Props.C05.closeEnd_generic,
-  Ivg.Gen.Tie.drawOps_tie, Ivg.Gen.Tie.magic_tie, Ivg.Gen.Tie.renderer_fields_tie,
-  Ivg.Gen.Tie.gradient_fields_tie]
+#obligations C05 [Ivg.Props.C05.transform_after_reset,
+  Ivg.Props.C05.T_closed,
+  Ivg.Props.C05.T_after_reset,
+  Ivg.Props.C05.T_corners,
+  Ivg.Props.C05.unabs_abs,
+  Ivg.Props.C05.step_refines,
+  Ivg.Props.C05.run_refines,
+  Ivg.Props.C05.startPath_cases,
+  Ivg.Props.C05.geometry_refines,
+  Ivg.Props.C05.step_kinds,
+  Ivg.Props.C05.step_disabled,
+  Ivg.Props.C05.closeMove_generic,
+  Ivg.Props.C05.closeEnd_generic,
+  Ivg.Gen.Tie.renderer_fields_tie,
+  Ivg.Gen.Tie.gradient_fields_tie,
+  Ivg.Gen.Tie.viewBox_fields_tie]
